@@ -495,7 +495,8 @@ func (e *Eng) unop(fr *Frame, st *State, in *ssa.UnOp) Val {
 			e.assumeValAllocated(fr, st, in.Type(), v)
 		} else if fr.side != nil {
 			if w := e.wf(in.Type(), v); w != "true" {
-				// a type invariant is a fact only on the paths that really perform the load
+				// type invariant of a value read by a contract clause (outside binders): a fact on the
+				// paths that perform the read
 				*fr.side = append(*fr.side, tImp(st.reach, w))
 			}
 		}
